@@ -2577,6 +2577,66 @@ def drop_sound_stamp_guards(trees, base, log):
                     break
 
 
+def refold_exact_type_fast_paths(trees, base, log):
+    """N13.  `if type(x) is C: x.h(args) else: x.m(args)`, where C.m is: refusals, then `self.h(<its own parameters>)`, and every refusal
+    of C.m (parameters replaced by the arguments) is literally one of the refusals the enclosing function has already passed: for an
+    object that is exactly a C the fast path does what x.m(args) does, so the statement is x.m(args).  (`isinstance(x, C)` instead of the
+    exact type also takes the fast path for subclasses that override m: not rewritten.)"""
+    classes = {c.name: c for t in trees.values() for c in t.body if isinstance(c, ast.ClassDef)}
+
+    def guards_of(stmts):
+        out = []
+        for st in stmts:
+            if isinstance(st, ast.If) and not st.orelse and len(st.body) == 1 and isinstance(st.body[0], ast.Raise):
+                out.append(st)
+        return out
+
+    def block(stmts, passed):
+        for i, st in enumerate(list(stmts)):
+            for field in ('body', 'orelse', 'finalbody'):
+                v = getattr(st, field, None)
+                if isinstance(v, list) and v and isinstance(v[0], ast.stmt) and not isinstance(st, (ast.FunctionDef, ast.AsyncFunctionDef, ast.ClassDef)):
+                    block(v, passed + [_txt(g.test) for g in guards_of(stmts[:i])])
+            if not (isinstance(st, ast.If) and isinstance(st.test, ast.Compare) and len(st.test.ops) == 1 and isinstance(st.test.ops[0], (ast.Is, ast.Eq))
+                    and len(st.body) == 1 and len(st.orelse) == 1):
+                continue
+            l, r = st.test.left, st.test.comparators[0]
+            if not (isinstance(l, ast.Call) and _txt(l.func) == 'type' and len(l.args) == 1 and isinstance(l.args[0], ast.Name) and isinstance(r, ast.Name) and r.id in classes):
+                continue
+            x, C = l.args[0].id, classes[r.id]
+            fast, slow = st.body[0], st.orelse[0]
+            if not all(isinstance(b, ast.Expr) and isinstance(b.value, ast.Call) and isinstance(b.value.func, ast.Attribute) and _txt(b.value.func.value) == x
+                       and not b.value.keywords for b in (fast, slow)):
+                continue
+            if [_txt(a) for a in fast.value.args] != [_txt(a) for a in slow.value.args] or not all(_atomic(a) for a in slow.value.args):
+                continue
+            h, m = fast.value.func.attr, slow.value.func.attr
+            cm = next((f for f in C.body if isinstance(f, ast.FunctionDef) and f.name == m), None)
+            if cm is None or any(f.name == h and not isinstance(f, ast.FunctionDef) for f in C.body if hasattr(f, 'name')):
+                continue
+            body = _body(cm)
+            gs = guards_of(body)
+            if len(body) != len(gs) + 1 or body[:len(gs)] != gs:
+                continue
+            last = body[-1]
+            params = [a.arg for a in cm.args.args[1:]]
+            if not (isinstance(last, ast.Expr) and isinstance(last.value, ast.Call) and isinstance(last.value.func, ast.Attribute) and last.value.func.attr == h
+                    and _txt(last.value.func.value) in ('self', C.name) and [_txt(a) for a in last.value.args] == params and not last.value.keywords):
+                continue
+            if len(params) != len(slow.value.args):
+                continue
+            mp = dict(zip(params, slow.value.args))
+            have = set(passed + [_txt(g.test) for g in guards_of(stmts[:i])])
+            if not all(_txt(_Subst(mp, {}).visit(copy.deepcopy(g.test))) in have for g in gs):
+                continue
+            stmts[stmts.index(st)] = slow
+            log.append(f'N13 exact-type fast path `{x}.{h}(..)` for {C.name} folded back into `{x}.{m}(..)` (its {len(gs)} refusal(s) were passed already)')
+    for tree in trees.values():
+        for fn in ast.walk(tree):
+            if isinstance(fn, (ast.FunctionDef, ast.AsyncFunctionDef)):
+                block(fn.body, [])
+
+
 def _paths_read(e):
     """texts of the attribute / subscript access paths read by e"""
     out = set()
@@ -3714,6 +3774,7 @@ def run(trees, baseline=None):
                     if len(vs) == 1 and isinstance(vs[0], ast.Constant) and vs[0].value is not None:
                         NON_NONE_CLASS_CONSTANTS.add(f'{c.name}.{k}')
     drop_sound_stamp_guards(trees, base, log)
+    refold_exact_type_fast_paths(trees, base, log)
     inline_generators(trees, base, log)
     unfold_walrus(trees, log)
     unroll_table_loops(trees, base, log)
